@@ -151,6 +151,61 @@ def _dup(s):
     if name not in s.modules:
         s.modules.append(name)
 
+SPECIAL_TWIN_SRC = '''
+from dataclasses import dataclass, field
+from typing import Optional
+@dataclass
+class SpecialTwin:
+    class Meta:
+        name = "special"
+        namespace = "urn:t"
+    unrelated: Optional[str] = field(default=None, metadata={"type": "Element"})
+'''
+_SPECIAL_TWIN_MOD = None
+
+
+def _special_twin(s):
+    """A later-imported module with an unrelated class of the qname {urn:t}special (next to Special, a subclass of Item)."""
+    global _SPECIAL_TWIN_MOD
+    name = "vmc_special_twin_module"
+    if _SPECIAL_TWIN_MOD is None:
+        _SPECIAL_TWIN_MOD = types.ModuleType(name)
+        sys.modules[name] = _SPECIAL_TWIN_MOD
+        exec(SPECIAL_TWIN_SRC, _SPECIAL_TWIN_MOD.__dict__)
+    sys.modules[name] = _SPECIAL_TWIN_MOD
+    if name not in s.modules:
+        s.modules.append(name)
+
+
+EXTZ_SRC = '''
+from dataclasses import dataclass, field
+from typing import Optional
+from vmc.models.shared import BaseZ
+@dataclass
+class ExtZ(BaseZ):
+    class Meta:
+        name = "extz"
+        namespace = "urn:t"
+    e: Optional[str] = field(default=None, metadata={"type": "Element"})
+'''
+_EXTZ_MOD = None
+
+
+def _extz(s):
+    """A later-imported module with a SUBCLASS of BaseZ named like the unrelated class UnrelatedExtZ ({urn:t}extz)."""
+    global _EXTZ_MOD
+    name = "vmc_extz_module"
+    if _EXTZ_MOD is None:
+        _EXTZ_MOD = types.ModuleType(name)
+        sys.modules[name] = _EXTZ_MOD
+        exec(EXTZ_SRC, _EXTZ_MOD.__dict__)
+    sys.modules[name] = _EXTZ_MOD
+    if name not in s.modules:
+        s.modules.append(name)
+
+
+DOC_HOLDER_Z = f'<holderz xmlns="urn:t" {XSI}><b xsi:type="extz"><v>a</v><e>x</e></b></holderz>'
+
 OPS = collections.OrderedDict([
     ("parse_A", lambda s: s.parser.from_string(DOC_A, M.ParentA)),
     ("parse_B", lambda s: s.parser.from_string(DOC_B, M.ParentB)),
@@ -189,6 +244,22 @@ OPS = collections.OrderedDict([
     ("json_poly_datetime", lambda s: s.json_parser.from_string('{"v": ["2020-01-02T03:04:05"]}', M.Poly)),
     ("json_poly_decimal", lambda s: s.json_parser.from_string('{"v": ["1.50"]}', M.Poly)),
     ("json_poly_bool", lambda s: s.json_parser.from_string('{"v": ["true"]}', M.Poly)),
+    # one lexical QName, two prefix bindings, an enumeration of QNames
+    ("parse_qenum_p_is_a", lambda s: s.parser.from_string('<qdoc xmlns="urn:t" xmlns:p="urn:a"><q>p:x</q></qdoc>', M.QDoc)),
+    ("parse_qenum_p_is_b", lambda s: s.parser.from_string('<qdoc xmlns="urn:t" xmlns:p="urn:b"><q>p:x</q></qdoc>', M.QDoc)),
+    # one name as an attribute and as a child element of a class with an attribute map and a wildcard
+    ("parse_open_code_attribute", lambda s: s.parser.from_string('<restricted xmlns="urn:t"><open code="1"/></restricted>', M.Restricted)),
+    ("parse_open_code_element", lambda s: s.parser.from_string('<restricted xmlns="urn:t"><open><code xmlns="">1</code></open></restricted>', M.Restricted)),
+    # a class shared by a nillable and a plain field
+    ("serialize_nilholder", lambda s: s.serializer.render(M.NilHolder(c=M.Addr(p="1")))),
+    ("serialize_plainholder_empty_child", lambda s: s.serializer.render(M.PlainHolder(c=M.Addr()))),
+    ("parse_plainholder_nil_child", lambda s: s.parser.from_string(f'<plainholder xmlns="urn:t" {XSI}><c xsi:nil="true"/></plainholder>', M.PlainHolder)),
+    # an xsi:type lookup and a root lookup for a qname that an unrelated, later imported class shares
+    ("import_special_twin_then_parse_special_root", lambda s: (_special_twin(s), s.parser.from_string('<special xmlns="urn:t"><unrelated>u</unrelated></special>'))[1]),
+    ("parse_special_root_untyped", lambda s: s.parser.from_string('<special xmlns="urn:t"><unrelated>u</unrelated></special>')),
+    # ... and the other way round: the unrelated class first, the subclass imported later
+    ("import_extz_then_parse_holder_xsi", lambda s: (_extz(s), s.parser.from_string(DOC_HOLDER_Z, M.HolderZ))[1]),
+    ("parse_extz_root_untyped", lambda s: s.parser.from_string('<extz xmlns="urn:t"><v>a</v><e>x</e></extz>')),
 ])
 OP_NAMES = list(OPS)
 
